@@ -270,15 +270,34 @@ func init() {
 	})
 	core.Register(&core.Profile{
 		Property: "C03", Level: "exploration",
-		Modes: []string{"faults"},
+		Modes: []string{"faults", "faults", "dc"},
 		Body: func(rc *core.RunCtx) {
+			if rc.Mode == "dc" {
+				c05Body(rc, "c03")
+				return
+			}
 			runTSOWorld(rc, tsoRunCfg{prop: "c03", minNodes: 2, maxNodes: 3, faults: true,
-				nemesis: []string{"crash", "etcd-partition", "leader-key-delete", "etcd-leader-move", "watch-cancel", "net-cut", "resign"}, intruder: true, allocIDClients: true},
+				nemesis: []string{"crash", "etcd-partition", "leader-key-delete", "etcd-leader-move", "watch-cancel", "net-cut", "resign", "node-freeze", "node-freeze"}, intruder: true, allocIDClients: true},
 				func(o *tsoOracle) {
 					o.c03 = true
 					o.e.OnTSO = func(node, inv, ret int) {
 						if !o.leaseAliveDuring(node, o.e.LeaderKey(), inv, ret) {
 							rc.Violate("c03.serve", "tso-served-without-lease", "node %d granted a timestamp (steps %d-%d) while it held no live leader lease", node, inv, ret)
+						}
+					}
+					// sharper: the lease must have been alive at some instant between the generation of the timestamp
+					// (the in-memory logical clock advancing) and the response
+					rc.S.AddMonitor(o.monitorGen)
+					o.e.OnTSOResp = func(node, inv, ret int, alloc string, phys, logical int64, bits uint32) {
+						if alloc != "global" || bits != 0 {
+							return
+						}
+						from := o.generatedAfter(node, phys, logical, ret)
+						if from < inv {
+							from = inv
+						}
+						if !o.leaseAliveDuring(node, o.e.LeaderKey(), from, ret) {
+							rc.Violate("c03.serve", "tso-generated-without-lease", "node %d granted timestamp (%d,%d), generated after step %d and returned at step %d, while it held no live leader lease in between (request began at step %d)", node, phys, logical, from, ret, inv)
 						}
 					}
 				})
